@@ -162,11 +162,15 @@ pub fn g_v16b() -> Geom {
     g.nfats = 1;
     g.root_entries = 32;
     g.lba_start = 63;
+    g.label = *b"           ";
     g
 }
 pub fn g_v32a() -> Geom {
-    // 65552 clusters: the last clusters have numbers above 65535 (the high 16 bits of start clusters matter)
-    Geom::fat32(65552, 1)
+    // 65552 clusters: the last clusters have numbers above 65535 (the high 16 bits of start clusters matter);
+    // blank label in the boot sector, so get_root_volume_label has to search the root directory
+    let mut g = Geom::fat32(65552, 1);
+    g.label = *b"           ";
+    g
 }
 pub fn g_v32b() -> Geom {
     // four blocks per cluster: directory clusters span several blocks
@@ -176,6 +180,8 @@ pub fn g_v32b() -> Geom {
     g.fat_size = g.min_fat_size() + 1;
     g.lba_start = 2048;
     g.hi_nibble = true;
+    // the information sector is not directly behind the boot sector
+    g.fsinfo_block = 3;
     g
 }
 
